@@ -116,6 +116,26 @@ CHECKS = {
           'Open/Close histories by three holders incl. surplus closes: underlying Open exactly on 0->1, Close exactly on 1->0, same Open '
           'result in between. SharedSinkProvider: Create/Drop/gc histories over keys {k1,k2,None}.',
           'reference counting by count (holders are indistinguishable to the sink); gc only at explicit gc operations', '3/C16'),
+  'C13': ('E', 'exploration',
+          'bounded-exhaustive enumeration of contexts / client ids / deadlines / payloads through the real ThriftMux sink chain, decoded by an independent codec; full header round trip',
+          'Every caller-property dictionary with 0-2 entries over {empty, ASCII, 2-byte, 3-byte, 300-char} strings x client id x deadline x '
+          'argument is sent through ClientIdInterceptorSink -> ThriftMuxMessageSerializerSink -> SocketTransportSink over simulated sockets '
+          'and decoded by an independent mux codec and the generated Thrift Processor; Tdiscarded bodies; every reply shape through the real '
+          'receive path; header writer/reader inverse for reply types x tags (quick: all tags < 2^18 + boundary patterns, thorough: all 2^24).',
+          'text context values only; deadline context checked for presence and length', '3/C13'),
+  'C14': ('E', 'exploration',
+          'bounded-exhaustive enumeration of calls x server outcomes x every split of the reply byte stream, against the Thrift library\'s own Processor',
+          'Hello and a hand-written compiler-shaped service (echo, void, struct + declared exception, void + declared exception, two ints, '
+          'oneway, derived interface over two modules) x text/struct argument alphabets x server outcomes {value, declared exception, '
+          'application exception, handler crash, void, missing result} x every reply split with <= 2 (quick) / <= 3 (thorough) cut points and '
+          'one byte at a time, through StaticDispatchMessage -> ThriftSerializerSink -> SocketTransportSink -> VarzSocketWrapper/ScalesSocket.',
+          'vsvc is hand-written in generated shape; Thrift library does all encoding', '3/C14'),
+  'C15': ('E', 'exploration',
+          'bounded-exhaustive enumeration of produce requests and produce/metadata responses against an independent Kafka v0 codec, plus all reply orders of concurrent requests',
+          'topic x partition x acks x payload list (empty, empty payload, all 256 byte values, 70 kB, several) through KafkaSerializerSink -> '
+          'KafkaTransportSink over simulated sockets; sizes, CRC32 and header fields verified by an independent parser; every response from '
+          'small domains incl. int64 extremes decoded by the real decoder; 2-3 concurrent requests with replies in every order.',
+          'bytes topics only', '3/C15'),
 }
 
 NOT_BUILT = 'check not built yet in this session (planned, see DESIGN.md section 3)'
